@@ -30,6 +30,7 @@ CONSTANTS
   Ids,                   \* order ids (positive integers)
   Price,                 \* the level's price
   StatsMicro,            \* TRUE: every statistics operation is its own step
+  StatsCount,            \* FALSE: statistics steps leave the counters alone (liveness checking needs a finite graph)
   DevAmendStaleLookup,   \* TRUE = defect D3: amend takes old quantities from the lookup
   DevZeroDisplaySpin     \* TRUE = defect D4: no set-aside, match re-queues a zero-display order forever
 
@@ -255,7 +256,7 @@ StatPCs == {"a4", "ms1", "ms2", "ms3", "ms4", "ms5", "cs"}
 RECURSIVE FoldStats(_)
 FoldStats(r) ==
   IF StatsMicro \/ r.me.pc \notin StatPCs THEN r
-  ELSE LET n == Step1(r.sh, r.me) IN FoldStats(R(n.sh, n.me, r.ev))
+  ELSE LET n == Step1(r.sh, r.me) IN FoldStats(R(IF StatsCount THEN n.sh ELSE r.sh, n.me, r.ev))
 
 Step(sh, me) == FoldStats(Step1(sh, me))
 
